@@ -12,6 +12,7 @@ var verifHarnesses = map[string]func(){
 	"VerifC06Step":         VerifC06Step,
 	"VerifC07Walk":         VerifC07Walk,
 	"VerifC05Walk":         VerifC05Walk,
+	"VerifC12Concurrent":   VerifC12Concurrent,
 	"VerifC12Walk":         VerifC12Walk,
 	"VerifC13Syntax":       VerifC13Syntax,
 	"VerifC13Idempotent":   VerifC13Idempotent,
